@@ -108,3 +108,196 @@ def json_sidecar_stub(dio_module):
         yield fs
     finally:
         dio_module.json, dio_module.pathlib = old_json, old_path
+
+
+# ----------------------------------------------------------------------------------------------------------------
+# scipy.fft stub: the exact discrete Fourier transform over the reals for axis lengths whose roots of unity are
+# algebraic of low degree (1, 2, 3, 4, 6: rationals, i, and sqrt(3)).  Contract (scipy.fft documentation):
+#   fftn(x, axes)[j]  = sum_r x[r] * exp(-2 pi i * sum_a j_a r_a / n_a)            (unnormalised, natural bin order)
+#   ifftn             = inverse with the factor 1/prod(n_a)
+#   rfftn             = fftn of real input, last axis restricted to bins 0 .. n//2
+#   irfftn(X, s)      = real inverse of the Hermitian completion of X along the last axis (output length s[-1],
+#                       default 2*(m-1)), imaginary parts of the self-conjugate bins ignored
+# fftfreq / rfftfreq / fftshift / ifftshift are the real SciPy functions.
+class ExactFFT:
+    SUPPORTED = (1, 2, 3, 4, 6)
+
+    def __init__(self, real_spfft):
+        self._real = real_spfft
+        self.calls = []
+
+    def __getattr__(self, name):
+        return getattr(self._real, name)
+
+    # -- roots of unity -----------------------------------------------------------------------------------------
+    @staticmethod
+    def _s3():
+        from .scalars import SymReal
+        import z3
+
+        return SymReal(z3.RealVal(3)).sqrt()
+
+    def twiddle(self, n, p, sign=-1):
+        """exp(sign * 2 pi i p / n) as (re, im) with exact entries"""
+        from fractions import Fraction as F
+
+        if n not in self.SUPPORTED:
+            from .core import Unsupported
+
+            raise Unsupported(f"exact DFT stub: axis length {n} (supported: {self.SUPPORTED})")
+        p %= n
+        h = F(1, 2)
+        if n == 1:
+            re, im = 1, 0
+        elif n == 2:
+            re, im = (1, 0) if p == 0 else (-1, 0)
+        elif n == 4:
+            re, im = [(1, 0), (0, 1), (-1, 0), (0, -1)][p]
+        else:
+            s3h = self._s3() * 0.5
+            k = p * (6 // n)  # in sixths of a turn
+            re, im = [(1, 0), (h, s3h), (-h, s3h), (-1, 0), (-h, -s3h), (h, -s3h)][k]
+        if sign < 0:
+            im = -im
+        return (float(re) if not hasattr(re, "t") else re), (float(im) if not hasattr(im, "t") else im)
+
+    # -- helpers ------------------------------------------------------------------------------------------------
+    @staticmethod
+    def _parts(x):
+        from .scalars import SymComplex, _py
+
+        x = _py(x)
+        if isinstance(x, SymComplex):
+            return x.re, x.im
+        if isinstance(x, complex):
+            return x.real, x.imag
+        return x, 0.0
+
+    @staticmethod
+    def _mk(re, im):
+        from .scalars import SymComplex
+
+        return SymComplex(re, im)
+
+    def _dft_axis(self, a, axis, sign, scale=None):
+        import numpy as np
+        from .sarray import plain
+
+        a = np.asarray(plain(a), dtype=object)
+        n = a.shape[axis]
+        out = np.empty(a.shape, dtype=object)
+        a_m = np.moveaxis(a, axis, 0)
+        o_m = np.moveaxis(out, axis, 0)
+        for idx in np.ndindex(*a_m.shape[1:]):
+            col = [self._parts(a_m[(r,) + idx]) for r in range(n)]
+            for j in range(n):
+                re, im = 0.0, 0.0
+                for r in range(n):
+                    wr, wi = self.twiddle(n, j * r, sign)
+                    xr, xi = col[r]
+                    re = re + (xr * wr - xi * wi)
+                    im = im + (xr * wi + xi * wr)
+                if scale is not None:
+                    re, im = re / scale, im / scale
+                o_m[(j,) + idx] = self._mk(re, im)
+        return out
+
+    def _axes(self, a, axes):
+        import numpy as np
+
+        nd = np.ndim(a)
+        if axes is None:
+            return list(range(nd))
+        return [int(x) % nd for x in axes]
+
+    def _check_kwargs(self, kw):
+        extra = {k: v for k, v in kw.items() if v is not None}
+        if extra:
+            from .core import Unsupported
+
+            raise Unsupported(f"exact DFT stub: unsupported keyword arguments {sorted(extra)}")
+
+    # -- the four transforms ------------------------------------------------------------------------------------
+    def fftn(self, x, s=None, axes=None, **kw):
+        from .sarray import symarray
+
+        self._check_kwargs(dict(kw, s=s))
+        self.calls.append(("fftn", tuple(self._axes(x, axes))))
+        a = x
+        for ax in self._axes(x, axes):
+            a = self._dft_axis(a, ax, -1)
+        return symarray(a)
+
+    def ifftn(self, x, s=None, axes=None, **kw):
+        from .sarray import symarray
+
+        self._check_kwargs(dict(kw, s=s))
+        self.calls.append(("ifftn", tuple(self._axes(x, axes))))
+        a = x
+        for ax in self._axes(x, axes):
+            a = self._dft_axis(a, ax, +1, scale=float(a.shape[ax]))
+        return symarray(a)
+
+    def rfftn(self, x, s=None, axes=None, **kw):
+        import numpy as np
+        from .sarray import symarray
+
+        self._check_kwargs(dict(kw, s=s))
+        axes = self._axes(x, axes)
+        self.calls.append(("rfftn", tuple(axes)))
+        a = x
+        for ax in axes:
+            a = self._dft_axis(a, ax, -1)
+        last = axes[-1]
+        m = a.shape[last] // 2 + 1
+        return symarray(np.take(a, range(m), axis=last))
+
+    def irfftn(self, x, s=None, axes=None, **kw):
+        import numpy as np
+        from .sarray import plain, symarray
+
+        self._check_kwargs(kw)
+        axes = self._axes(x, axes)
+        self.calls.append(("irfftn", tuple(axes), None if s is None else tuple(int(v) for v in s)))
+        a = np.asarray(plain(x), dtype=object)
+        last = axes[-1]
+        m = a.shape[last]
+        if s is not None:
+            s = [int(v) for v in s]
+            if len(s) != len(axes):
+                raise ValueError("when given, axes and shape arguments have to be of the same length")
+            for ax, want in zip(axes[:-1], s[:-1]):
+                if a.shape[ax] != want:
+                    from .core import Unsupported
+
+                    raise Unsupported("exact DFT stub: irfftn with padding/truncation along a leading axis")
+            N = s[-1]
+            if N // 2 + 1 != m:
+                from .core import Unsupported
+
+                raise Unsupported("exact DFT stub: irfftn with padding/truncation along the last axis")
+        else:
+            N = 2 * (m - 1)
+            if N < 1:
+                raise ValueError(f"Invalid number of data points ({N}) specified")
+        for ax in axes[:-1]:
+            a = self._dft_axis(a, ax, +1, scale=float(a.shape[ax]))
+        shape = list(a.shape)
+        shape[last] = N
+        out = np.empty(shape, dtype=object)
+        a_m = np.moveaxis(a, last, 0)
+        o_m = np.moveaxis(out, last, 0)
+        for idx in np.ndindex(*a_m.shape[1:]):
+            col = [self._parts(a_m[(j,) + idx]) for j in range(m)]
+            for r in range(N):
+                acc = col[0][0]
+                for j in range(1, m):
+                    wr, wi = self.twiddle(N, j * r, +1)
+                    xr, xi = col[j]
+                    term = xr * wr - xi * wi
+                    if 2 * j == N:
+                        acc = acc + term  # Nyquist bin counted once
+                    else:
+                        acc = acc + 2 * term
+                o_m[(r,) + idx] = acc / float(N)
+        return symarray(out)
